@@ -20,26 +20,46 @@ _spec.loader.exec_module(G)
 
 CLAIMED = True
 LEVEL = "proof"
-TECHNIQUE = ("Lean 4 proofs over a hand transcription of FormatterToXMLUnicode + the three writers + the 512-entry buffers, "
-             "with character tables, entity strings, buffer sizes and the CDATA guard regenerated from the source on every run; "
-             "correspondence run of the real serializers (bytes and writeData chunk sizes) against the compiled model, "
-             "Xerces re-parse of the real output as the independent specification predicate")
-LEVEL_TEXT = ("Machine-checked: UTF-8/UTF-16 encode-decode round trips for every scalar sequence; buffer transparency of both "
-              "512-entry buffer layers for every write sequence (no chunk splits an item, no store past the capacity); content and "
-              "attribute escaping read back to the same string for every sequence of XML Chars, every writer family, both XML "
-              "versions and any representability predicate covering ASCII; a forbidden character anywhere in a string ends in an "
-              "error, never output; the regenerated character tables agree with the Recommendations entry by entry; kernel-checked "
-              "counterexamples for writeCDATAChars as written (unbalanced section, ']]>' outside a section, look-ahead past length) "
-              "and for unrejected non-characters / unpaired surrogates. Tied to the working tree by the translator (tables, entity "
-              "strings, buffer sizes, CDATA guard, transcode factor) and by replaying generated SAX scripts through the real "
-              "serializers and the model (bytes, writeData chunk sizes, error kinds).")
+TECHNIQUE = ("Lean 4 proofs over a hand transcription of FormatterToXMLUnicode (escaping, CDATA, comments/PIs, element stack, "
+             "XML declaration, DOCTYPE, XalanIndentWriter) + the three writers + both 512-entry buffer layers, and over an "
+             "independent specification side (strict decoders, character reader, document reader with prolog); character "
+             "tables, entity / prolog strings, buffer sizes, transcode factor, CDATA guard and repair flags regenerated from "
+             "the source on every run; correspondence run of the real serializers (bytes, writeData chunk sizes, error kinds) "
+             "against the compiled model; Xerces SAX2 re-parse of the real output as the independent specification "
+             "predicate; the Lean document reader against Xerces on the real output; the Lean indentation filter replayed "
+             "through the real plain serializer against the real indenting serializer")
+LEVEL_TEXT = ("Machine-checked (35 theorems, all proved): UTF-8/UTF-16 encode-decode round trips for every scalar sequence; "
+              "transparency and bounds of both buffer layers for every write sequence (no chunk splits an item); text and "
+              "attribute-value escaping read back to the same string for every sequence of XML Chars, every writer family, both "
+              "XML versions, every representability predicate covering ASCII; forbidden characters, and with the committed "
+              "repairs unpaired surrogates and U+FFFE/U+FFFF, end in an error, never output; CDATA round trip for every string "
+              "(']]>' splitting, references outside the section); comment / PI data written as itself, ElemComment/ElemPI repair "
+              "post-conditions; for every result tree the event-driven serializer equals a recursive function of the tree "
+              "(document_structure, prolog included); for every document element whose strings are XML characters "
+              "(TreeOk, RTreeOk) everything written from startDocument to endDocument - XML declaration with standalone or "
+              "omitted, DOCTYPE PUBLIC/SYSTEM, root element - decodes strictly and the document reader returns exactly the tree "
+              "(document_roundtrip_prolog); with indent=yes the serializer fails exactly when the plain one does, only inserts "
+              "LF/space, is unit for unit the plain serializer behind a SAX filter that adds whitespace characters events "
+              "(indent_is_whitespace_text), and the reader returns the tree plus whitespace-only text children none of which "
+              "has a text or CDATA neighbour (indent_tree_roundtrip); the regenerated character tables agree with the "
+              "Recommendations entry by entry; kernel-checked counterexamples for the CDATA code as it was before dc2c5a1. Tied "
+              "to the working tree by the translator and by replaying generated SAX scripts (5 encodings x 2 versions x prolog "
+              "options x indent amounts, directed buffer-boundary and exhaustive short-string cases) through the real "
+              "serializers and the model.")
 LEVEL_NOTE = ("Trusted: Lean kernel; axioms propext/Classical.choice/Quot.sound only; translate/c04_tables.py (regex over the "
               "source); the hand transcription of FormatterToXMLUnicode.hpp / XalanUTF8Writer.hpp / XalanUTF16Writer.hpp / "
-              "XalanOtherEncodingWriter.hpp / XalanOutputStream::write (checked by the correspondence run, bounded by generator "
-              "coverage); ICU transcoders and canTranscodeTo are parameters (instantiated for ISO-8859-1, US-ASCII, UTF-32BE); CDATA, "
-              "comment/PI and whole-document round trips are not proved (correspondence + Xerces re-parse only); the "
-              "legacy FormatterToXML and the indenting variants are not modelled (FormatterToXML is exercised by the harness "
-              "against the same specification predicate only); Xerces-C is the re-parser.")
+              "XalanOtherEncodingWriter.hpp / XalanIndentWriter.hpp / XalanOutputStream::write+transcode sizing (checked by the "
+              "correspondence run, bounded by generator coverage); ICU transcoders and canTranscodeTo are parameters "
+              "(instantiated for ISO-8859-1, US-ASCII, UTF-32BE); the document reader Spec.readDocument is a restriction of a "
+              "conforming parser (no DTD subset, no namespaces, decimal references only; compared with Xerces on the real output "
+              "wherever it returns a tree); Xerces-C is the re-parser. Hypotheses of the document theorems: strings are XML "
+              "characters and names/comment/PI data literally writable (TreeOk); no empty or adjacent character-data children, "
+              "PI data not starting with white space (RTreeOk); encoding name, standalone value, DOCTYPE identifiers printable "
+              "ASCII without quote, '>' and '?'; ASCII root name when a DOCTYPE is written; a single document element (top-level "
+              "comments/PIs are covered by document_structure, the event-level indentation theorems and the Xerces predicate "
+              "only). Not modelled: the legacy FormatterToXML (reachable only by direct construction and as base of "
+              "FormatterToHTML; run by the harness against the Xerces predicate; two known findings, one with a proposed "
+              "repair r6); CR/NEL/LSEP in a comment or PI is read back as LF (known finding, XML has no escape there).")
 DESIGN_REF = "DESIGN.md section 5, C04; design/C04.md"
 
 THEOREMS = [
@@ -61,10 +81,14 @@ THEOREMS = [
     "XalanModel.Props.C04.document_structure",
     "XalanModel.Props.C04.document_encoding",
     "XalanModel.Props.C04.document_roundtrip",
+    "XalanModel.Props.C04.document_roundtrip_prolog",
     "XalanModel.Props.C04.generated_doc_hyp",
     "XalanModel.Props.C04.indent_off_same",
     "XalanModel.Props.C04.indent_only_inserts_whitespace",
     "XalanModel.Props.C04.indent_never_after_text",
+    "XalanModel.Props.C04.indent_is_whitespace_text",
+    "XalanModel.Props.C04.indent_tree_decoration",
+    "XalanModel.Props.C04.indent_tree_roundtrip",
     "XalanModel.Props.C04.comment_roundtrip",
     "XalanModel.Props.C04.comment_repair_wellformed",
     "XalanModel.Props.C04.pi_repair_wellformed",
@@ -412,8 +436,9 @@ def run(ctx):
             cases.append(("U", enc, ver, doc, "gen"))
         if r.chance(1, 8) and enc != "UTF-32BE":
             # the legacy serializer is run on the four classic encodings only (its maximum-character table does not
-            # know UTF-32 and it escapes everything above 0x7F there, also inside comments and names)
-            cases.append(("L", enc, ver.split("|")[0], legacy_safe(doc), "gen"))
+            # know UTF-32 and it escapes everything above 0x7F there, also inside comments and names); since 99e2481
+            # (XalanOutputStream holds back half a surrogate pair) trees with supplementary characters are sent too
+            cases.append(("L", enc, ver.split("|")[0], doc, "gen"))
     repair_correspondence(ctx, model, work, r)
     cases += boundary_cases(ctx.thorough)
     if ctx.thorough:
@@ -430,6 +455,7 @@ def run(ctx):
         ctx.fail(j[0], "harness aborted (sanitizer/crash): " + ierr[-800:], request_line(k, e, v, small))
         cases = cases[:bad]
     reader_correspondence(ctx, model, work, cases, il)
+    filter_correspondence(ctx, model, harness, work, cases, il)
     agree = True
     disagreements = []
     fails = []
@@ -541,7 +567,7 @@ def repair_correspondence(ctx, model, work, r):
 
 
 def reader_correspondence(ctx, model, work, cases, il):
-    """the specification reader of the proofs (Spec.readDoc) against Xerces on the *real* output: wherever the Lean
+    """the specification reader of the proofs (Spec.readDocument = prolog steps + Spec.readDoc) against Xerces on the *real* output: wherever the Lean
     reader returns a tree it must be the tree Xerces reports (it is a restriction of a conforming parser)"""
     codec = {"UTF-8": "utf-8", "UTF-16": "utf-16", "ISO-8859-1": "latin-1", "US-ASCII": "ascii", "UTF-32BE": "utf-32-be"}
     reqs, meta = [], []
@@ -555,12 +581,7 @@ def reader_correspondence(ctx, model, work, cases, il):
             continue
         if text.startswith("\ufeff"):
             text = text[1:]
-        if text.startswith("<?xml"):
-            text = text[text.index("?>") + 2:]
-        text = text.lstrip("\n")
-        if text.startswith("<!DOCTYPE"):
-            text = text[text.index(">") + 1:].lstrip("\n")
-        text = text.rstrip("\n ")
+        text = text.rstrip("\n ")        # the prolog is the Lean reader's business (Spec.readDocument)
         units = G.u(text)
         reqs.append("read %s %s" % (v.split("|")[0], G.hx(units)))
         meta.append((idx, il[idx].split(" | ", 1)[1].split()[1:]))
@@ -581,8 +602,62 @@ def reader_correspondence(ctx, model, work, cases, il):
             if r.split()[1:] != xer:
                 bad.append({"request": reqs[n][:300], "lean": r[:300], "xerces": " ".join(xer)[:300]})
     ctx.extra["spec_reader"] = {"documents": len(reqs), "read_by_lean_reader": trees, "differ_from_xerces": len(bad)}
-    ctx.oblige("correspondence: Spec.readDoc (the reader of document_roundtrip) = Xerces on %d real outputs (%d read)" % (len(reqs), trees),
+    ctx.oblige("correspondence: Spec.readDocument (the reader of document_roundtrip[_prolog]) = Xerces on %d real outputs, prolog included (%d read)" % (len(reqs), trees),
                "correspondence", not bad and trees > 0, json.dumps(bad[:2]))
+
+
+def filter_correspondence(ctx, model, harness, work, cases, il):
+    """indent_is_whitespace_text / indent_tree_roundtrip on the real code: the *real indenting* serializer on the events
+    must write what the *real plain* serializer writes on the events behind the Lean filter (`decorEvents`, whitespace
+    as explicit characters events), up to the line break after the XML declaration and the one endDocument appends"""
+    codec = {"UTF-8": "utf-8", "UTF-16": "utf-16", "ISO-8859-1": "latin-1", "US-ASCII": "ascii", "UTF-32BE": "utf-32-be"}
+    reqs, meta = [], []
+    for idx, (k, e, v, d, src) in enumerate(cases):
+        if k != "U" or "|" not in v or ",ind=" not in v or idx >= len(il) or not il[idx].startswith("ok "):
+            continue
+        ver, opts = v.split("|", 1)
+        amount = opts.rsplit(",ind=", 1)[1]
+        reqs.append("filter %s %s" % (amount, " ".join(G.events(d))))
+        meta.append((idx, e, ver, opts.rsplit(",ind=", 1)[0]))
+        if len(reqs) >= (3000 if ctx.thorough else 600):
+            break
+    if not reqs:
+        return
+    req = os.path.join(work, "c04_filter.req")
+    with open(req, "w") as f:
+        f.write("\n".join(reqs) + "\n")
+    p = subprocess.run([model], stdin=open(req, "rb"), stdout=subprocess.PIPE)
+    ml = p.stdout.decode().split("\n")
+    plain_lines, keep = [], []
+    for n, (idx, e, ver, opts) in enumerate(meta):
+        r = ml[n] if n < len(ml) else ""
+        if r.startswith("events"):
+            plain_lines.append("docx U %s %s %s %s" % (e, ver, opts, " ".join(r.split()[1:])))
+            keep.append((idx, e, n))
+    pl = run_impl(harness, plain_lines, work, "filter")
+
+    def body(reply, e):
+        text = bytes.fromhex(reply.split()[1]).decode(codec[e], "surrogatepass")
+        if text.startswith("\ufeff"):
+            text = text[1:]
+        if text.startswith("<?xml"):
+            text = text[text.index("?>") + 2:]
+        return text.lstrip("\n").rstrip("\n")
+    bad, same = [], 0
+    for m, (idx, e, n) in enumerate(keep):
+        a, b = il[idx], pl[m] if m < len(pl) else "noreply"
+        try:
+            ok = b.startswith("ok ") and body(a, e) == body(b, e)
+        except Exception:
+            ok = False
+        if ok:
+            same += 1
+        else:
+            bad.append({"request": reqs[n][:300], "indenting": a[:200], "plain_on_filtered": b[:200]})
+    ctx.extra["indent_filter"] = {"documents": len(keep), "same_bytes": same, "differ": len(bad)}
+    ctx.oblige("correspondence: real indenting serializer = real plain serializer behind the Lean indentation filter "
+               "(decorEvents of indent_is_whitespace_text) on %d documents" % len(keep),
+               "correspondence", not bad and same > 0, json.dumps(bad[:2]))
 
 
 def boundary_cases(thorough):
@@ -601,22 +676,6 @@ def boundary_cases(thorough):
                         out.append(("U", enc, ver, _el(("m", [98] * (pad - 4)), ("c", s * 3, None)), "boundary"))
                         out.append(("U", enc, ver, ("el", G.u("r"), [(G.u("k"), [97] * (pad - 2) + s * 3)], []), "boundary"))
     return out
-
-
-def legacy_safe(n):
-    """FormatterToXML under UTF-8 writes surrogate pairs unescaped through its own buffer, which can split a pair
-    between two transcoder calls; XalanOutputStream::transcode then doubles its destination until memory is exhausted
-    (design/C04.md, finding F10: the process hangs and is finally killed).  Trees with surrogates are therefore not sent
-    to the legacy serializer."""
-    ns = lambda v: [c for c in v if not 0xD800 <= c <= 0xDFFF]
-    k = n[0]
-    if k == "el":
-        return ("el", n[1], [(a, ns(v)) for a, v in n[2]], [legacy_safe(ch) for ch in n[3]])
-    if k in ("t", "c"):
-        return (k, ns(n[1]), None if n[2] is None else ns(n[2]))
-    if k == "m":
-        return (k, ns(n[1]))
-    return (k, n[1], ns(n[2]))
 
 
 def exhaustive_cases():
